@@ -15,6 +15,7 @@ package unix
 import (
 	"fmt"
 	"sort"
+	"strings"
 	"syscall"
 
 	"verif/engine/vsched"
@@ -136,6 +137,9 @@ type Kernel struct {
 	OpenFail   map[int]error
 	nOpen      int
 	KqueueFail error
+	// Labels names inodes independently of the numbers the filesystem hands out
+	// (which differ from one execution to the next); used by KeyPart only.
+	Labels map[uint64]string
 }
 
 func kern() *Kernel {
@@ -177,6 +181,7 @@ func Kqueue() (int, error) {
 	fd := k.alloc(&file{kind: kKqueue, pin: -1})
 	k.kqs[fd] = &kq{notes: map[[2]int]*knote{}}
 	k.Log = append(k.Log, OpenRec{Fd: fd, Kind: "kqueue"})
+	vsched.Observe("kqueue", fd)
 	return fd, nil
 }
 
@@ -188,6 +193,7 @@ func Pipe(p []int) error {
 	pp.w = k.alloc(&file{kind: kPipeW, pipe: pp, pin: -1})
 	p[0], p[1] = pp.r, pp.w
 	k.Log = append(k.Log, OpenRec{Fd: pp.r, Kind: "pipe-r"}, OpenRec{Fd: pp.w, Kind: "pipe-w"})
+	vsched.Observe("pipe", pp.r, pp.w)
 	return nil
 }
 
@@ -197,8 +203,9 @@ func CloseOnExec(fd int) {}
 // open(2) without O_NOFOLLOW does) and returns a simulated descriptor for the
 // vnode. The sandbox runs as root, so the permission check an unprivileged
 // user would get is emulated: a file without any read bit gives EACCES.
-func Open(path string, mode int, perm uint32) (int, error) {
+func Open(path string, mode int, perm uint32) (fd int, err error) {
 	vsched.Step("open " + path)
+	defer func() { vsched.Observe("open", path, fd, fmt.Sprint(err)) }()
 	k := kern()
 	n := k.nOpen
 	k.nOpen++
@@ -216,13 +223,14 @@ func Open(path string, mode int, perm uint32) (int, error) {
 	if err != nil {
 		return -1, err
 	}
-	fd := k.alloc(&file{kind: kVnode, ino: st.Ino, path: path, pin: pin})
+	fd = k.alloc(&file{kind: kVnode, ino: st.Ino, path: path, pin: pin})
 	k.Log = append(k.Log, OpenRec{Fd: fd, Kind: "vnode", Path: path, Ino: st.Ino})
 	return fd, nil
 }
 
-func Close(fd int) error {
+func Close(fd int) (err error) {
 	vsched.Step(fmt.Sprintf("close %d", fd))
+	defer func() { vsched.Observe("close", fd, fmt.Sprint(err)) }()
 	k := kern()
 	f, ok := k.fds[fd]
 	if !ok {
@@ -260,7 +268,14 @@ func Close(fd int) error {
 
 // Kevent registers changes and/or waits for events. A wait (events non-empty)
 // blocks, as a scheduling point, until some knote of the queue is active.
-func Kevent(kqfd int, changes, events []Kevent_t, timeout *Timespec) (int, error) {
+func Kevent(kqfd int, changes, events []Kevent_t, timeout *Timespec) (cnt int, err error) {
+	defer func() {
+		var got []string
+		for i := 0; i < cnt && i < len(events); i++ {
+			got = append(got, fmt.Sprintf("%d/%d/%#x/%#x", events[i].Ident, events[i].Filter, events[i].Flags, events[i].Fflags))
+		}
+		vsched.Observe("kevent", len(changes), cnt, fmt.Sprint(err), got)
+	}()
 	k := kern()
 	if len(changes) > 0 {
 		vsched.Step(fmt.Sprintf("kevent register %d", len(changes)))
@@ -327,7 +342,7 @@ func Kevent(kqfd int, changes, events []Kevent_t, timeout *Timespec) (int, error
 		}
 	}
 	sort.Slice(act, func(i, j int) bool { return act[i].seq < act[j].seq })
-	cnt := 0
+	cnt = 0
 	for _, n := range act {
 		if cnt == len(events) {
 			break
@@ -417,4 +432,76 @@ func (k *Kernel) Pending() bool {
 		}
 	}
 	return false
+}
+
+// KeyPart renders the simulated kernel for the global state key: the
+// descriptor table (inodes by label), pipes, knotes with the relative order of
+// the active ones, fault scripts left. "" when an open inode has no label
+// (then the state must not be merged with any other).
+func (k *Kernel) KeyPart() string {
+	var fds []int
+	for fd := range k.fds {
+		fds = append(fds, fd)
+	}
+	sort.Ints(fds)
+	var b []string
+	for _, fd := range fds {
+		f := k.fds[fd]
+		switch f.kind {
+		case kVnode:
+			l, ok := k.Labels[f.ino]
+			if !ok {
+				return ""
+			}
+			b = append(b, fmt.Sprintf("%d=v:%s:%s", fd, l, f.path))
+		case kPipeR, kPipeW:
+			b = append(b, fmt.Sprintf("%d=%s:%d/%d/%t", fd, kindName(f.kind), f.pipe.r, f.pipe.w, f.pipe.wclosed))
+		default:
+			b = append(b, fmt.Sprintf("%d=kq", fd))
+		}
+	}
+	var qs []int
+	for fd := range k.kqs {
+		qs = append(qs, fd)
+	}
+	sort.Ints(qs)
+	for _, qfd := range qs {
+		q := k.kqs[qfd]
+		var ns []*knote
+		for _, n := range q.notes {
+			ns = append(ns, n)
+		}
+		sort.Slice(ns, func(i, j int) bool {
+			if ns[i].fd != ns[j].fd {
+				return ns[i].fd < ns[j].fd
+			}
+			return ns[i].filter < ns[j].filter
+		})
+		for _, n := range ns {
+			rank := -1
+			if n.active {
+				rank = 0
+				for _, m := range ns {
+					if m.active && m.seq < n.seq {
+						rank++
+					}
+				}
+			}
+			b = append(b, fmt.Sprintf("q%d:%d/%d/%#x/%#x/%#x/%d", qfd, n.fd, n.filter, n.flags, n.want, n.pending, rank))
+		}
+	}
+	if len(k.OpenFail) > 0 {
+		b = append(b, fmt.Sprintf("nopen=%d", k.nOpen))
+	}
+	return strings.Join(b, " ")
+}
+
+// Label gives an inode a schedule-independent name (first label wins).
+func (k *Kernel) Label(ino uint64, label string) {
+	if k.Labels == nil {
+		k.Labels = map[uint64]string{}
+	}
+	if _, ok := k.Labels[ino]; !ok {
+		k.Labels[ino] = label
+	}
 }
